@@ -10,6 +10,7 @@ CONSTANTS
   MaxMut = 2
   MaxSnap = 2
   MaxDepth = 2
+  MaxTx = 0
   FrameAddr <- FrJ
   NewAddrs <- NoNew
   XferTo <- NoXfer
